@@ -30,7 +30,7 @@ namespace tapkee_internal
 template <class P, class DistanceCallback> class CoverTreeWrapper
 {
   public:
-    CoverTreeWrapper() : base(COVERTREE_BASE), il2(1. / log(base)), internal_k(1)
+    CoverTreeWrapper() : base(COVERTREE_BASE), il2(1. / log(base)), internal_k(1), leaf_scale(100)
     {
     }
 
@@ -118,6 +118,8 @@ template <class P, class DistanceCallback> class CoverTreeWrapper
     ScalarType base;
     ScalarType il2;
     int internal_k;
+    //! The scale of leaves and of nodes of coinciding points: larger than the scale of any other node
+    int leaf_scale;
 };
 
 template <class P> ScalarType max_set(v_array<ds_node<P>>& v)
@@ -259,6 +261,8 @@ node<P> CoverTreeWrapper<P, DistanceCallback>::batch_insert(DistanceCallback& dc
                 push(stack, point_set);
                 point_set = far;
                 n.scale = top_scale - max_scale;
+                if (leaf_scale <= n.scale)
+                    leaf_scale = n.scale + 1;
                 n.max_dist = max_set(consumed_set);
                 alloc_array(children, size(children));
                 n.num_children = size(children);
@@ -267,6 +271,15 @@ node<P> CoverTreeWrapper<P, DistanceCallback>::batch_insert(DistanceCallback& dc
             }
         }
     }
+}
+
+template <class P> void set_leaf_scale(node<P>& n, int leaf_scale)
+{
+    // leaves and nodes of coinciding points were created with the scale 100
+    if (n.num_children == 0 || n.max_dist == 0.)
+        n.scale = leaf_scale;
+    for (int i = 0; i < n.num_children; i++)
+        set_leaf_scale(n.children[i], leaf_scale);
 }
 
 template <class P, class DistanceCallback>
@@ -290,6 +303,9 @@ node<P> CoverTreeWrapper<P, DistanceCallback>::batch_create(DistanceCallback& dc
 
     node<P> top =
         batch_insert(dcb, points[0], get_scale(max_dist), get_scale(max_dist), point_set, consumed_set, stack);
+    // Data of wide dynamic range produce nodes of scale 100 and more
+    if (leaf_scale > 100)
+        set_leaf_scale(top, leaf_scale);
     return top;
 }
 
@@ -405,7 +421,7 @@ v_array<v_array<d_node<P>>> CoverTreeWrapper<P, D>::get_cover_sets(
     v_array<v_array<v_array<d_node<P>>>>& spare_cover_sets)
 {
     v_array<v_array<d_node<P>>> ret = pop(spare_cover_sets);
-    while (size(ret) < 101)
+    while (size(ret) < leaf_scale + 1)
     {
         v_array<d_node<P>> temp;
         push(ret, temp);
@@ -589,7 +605,7 @@ void CoverTreeWrapper<P, DistanceCallback>::internal_batch_nearest_neighbor(
 {
     if (current_scale > max_scale) // All remaining points are in the zero set.
         brute_nearest(dcb, query, zero_set, upper_bound, results, spare_zero_sets);
-    else if (query->scale <= current_scale && query->scale != 100)
+    else if (query->scale <= current_scale && query->scale != leaf_scale)
     // Our query has too much scale.  Reduce.
     {
         auto query_chi = query->children.begin();
